@@ -98,8 +98,13 @@ def _pad_face_connections(
 
     # Detect all the axes we have to deal with during padding
     # all the axes defined in the connections + the axes of the padding width should give all axes we need to iterate over
-    pad_axes = list(
-        set(_get_all_connection_axes(connections, facedim) + list(padding_width.keys()))
+    # (in the order of the grid's axes, so that the result - corner cells in particular -
+    # depends neither on set iteration order nor on the order in which links were listed)
+    all_pad_axes = set(
+        _get_all_connection_axes(connections, facedim) + list(padding_width.keys())
+    )
+    pad_axes = [ax for ax in grid.axes if ax in all_pad_axes] + sorted(
+        ax for ax in all_pad_axes if ax not in grid.axes
     )
 
     padding_width = {axname: padding_width.get(axname, (0, 0)) for axname in pad_axes}
